@@ -142,30 +142,39 @@ theorem wt_noDead (vtys : List CSem.Ty) (ret : CSem.Ty) (st : Stmt) : ∀ (lb lc
 
 /-! ## The simulation statement -/
 
-/-- The statements whose simulation is proved so far (grows with the stages). -/
-def frag : Stmt → Bool
+/-- Every call names a function of the program `P` with the declared types (`CSem2.callsOK`, in the form the
+    statement lemmas decompose); nothing is required when `P` is empty. -/
+def frag (P : List CSem2.Func) : Stmt → Bool
   | .skip | .decl .. | .assign .. | .incdec .. | .expr _ | .ret _ | .break_ | .continue_ => true
-  | .seq a b => frag a && frag b
-  | .ite _ a => frag a
-  | .itee _ a b => frag a && frag b
-  | .while_ _ b => frag b
-  | .dowhile b _ => frag b
-  | .for_ _ st b => frag st && frag b
-  | .case_ _ | .default_ | .call .. => true
-  | .switch_ _ b => frag b
+  | .seq a b => frag P a && frag P b
+  | .ite _ a => frag P a
+  | .itee _ a b => frag P a && frag P b
+  | .while_ _ b => frag P b
+  | .dowhile b _ => frag P b
+  | .for_ _ st b => frag P st && frag P b
+  | .case_ _ | .default_ => true
+  | .switch_ _ b => frag P b
+  | .call dst rt fn args => P.isEmpty || callsOK P (.call dst rt fn args)
+
+theorem frag_of_callsOK (P : List CSem2.Func) (st : Stmt) (h : callsOK P st = true) : frag P st = true := by
+  induction st <;> simp_all [frag, callsOK]
+
+/-- in a single function (`P = []`) no call is ever executed: nothing is required of it -/
+theorem frag_nil (st : Stmt) : frag [] st = true := by
+  induction st <;> simp_all [frag]
 
 /-- Executions of at most `fuel` are simulated (see `Post`). -/
 def SimStmt (T : Stat) (fuel : Nat) : Prop :=
   ∀ (st : Stmt) (s : Store) (out : CSem2.Outcome) (lp : Bool × Bool) (brk cont : String) (c : SCtx)
     (nd nd' : Nat) (pre post : List Item) (env : Env) (M : Mem),
-    exec T.S.cs fuel s st = some out →
-    frag st = true →
+    exec T.S.cs T.P fuel s st = some out →
+    frag T.P st = true →
     Stmt.wt T.vtys T.ret lp.1 lp.2 nd st = some nd' →
     Pos T c nd pre →
     Ext T (funcstmt T.S.cs brk cont st c).ctx →
     T.S.its = pre ++ (funcstmt T.S.cs brk cont st c).items ++ post →
     ((lp.1 = true → CanJump T.S brk) ∧ (lp.2 = true → CanJump T.S cont)) →
-    SInv T.S.cs T.σ T.vtys s env M →
+    SInv T.M0 T.S.cs T.σ T.vtys s env M →
     Post T lp brk cont (T.at env M pre) (pre ++ (funcstmt T.S.cs brk cont st c).items)
       (funcstmt T.S.cs brk cont st c).ctx out
 
@@ -173,8 +182,8 @@ section Leaves
 variable (T : Stat) {s : Store} {out : CSem2.Outcome} {lp : Bool × Bool} {brk cont : String} {c : SCtx}
   {nd nd' : Nat} {pre post : List Item} {env : Env} {M : Mem}
 
-theorem sim_skip (n : Nat) (hex : exec T.S.cs (n + 1) s .skip = some out) (hp : Pos T c nd pre)
-    (inv : SInv T.S.cs T.σ T.vtys s env M) :
+theorem sim_skip (n : Nat) (hex : exec T.S.cs T.P (n + 1) s .skip = some out) (hp : Pos T c nd pre)
+    (inv : SInv T.M0 T.S.cs T.σ T.vtys s env M) :
     Post T lp brk cont (T.at env M pre) (pre ++ (funcstmt T.S.cs brk cont .skip c).items)
       (funcstmt T.S.cs brk cont .skip c).ctx out := by
   simp only [exec, Option.some.injEq] at hex
@@ -182,9 +191,9 @@ theorem sim_skip (n : Nat) (hex : exec T.S.cs (n + 1) s .skip = some out) (hp : 
   simp only [funcstmt, List.append_nil]
   exact ⟨hp.jump, 0, env, M, rfl, inv⟩
 
-theorem sim_break (n : Nat) (hex : exec T.S.cs (n + 1) s .break_ = some out)
+theorem sim_break (n : Nat) (hex : exec T.S.cs T.P (n + 1) s .break_ = some out)
     (hwt : Stmt.wt T.vtys T.ret lp.1 lp.2 nd .break_ = some nd') (hp : Pos T c nd pre)
-    (inv : SInv T.S.cs T.σ T.vtys s env M) :
+    (inv : SInv T.M0 T.S.cs T.σ T.vtys s env M) :
     Post T lp brk cont (T.at env M pre) (pre ++ (funcstmt T.S.cs brk cont .break_ c).items)
       (funcstmt T.S.cs brk cont .break_ c).ctx out := by
   simp only [exec, Option.some.injEq] at hex
@@ -198,9 +207,9 @@ theorem sim_break (n : Nat) (hex : exec T.S.cs (n + 1) s .break_ = some out)
   refine ⟨hlp, 0, env, M, inv, Or.inl ⟨?_, rfl⟩⟩
   simp only [setJump_jump, hp.jump, Option.getD_none]
 
-theorem sim_continue (n : Nat) (hex : exec T.S.cs (n + 1) s .continue_ = some out)
+theorem sim_continue (n : Nat) (hex : exec T.S.cs T.P (n + 1) s .continue_ = some out)
     (hwt : Stmt.wt T.vtys T.ret lp.1 lp.2 nd .continue_ = some nd') (hp : Pos T c nd pre)
-    (inv : SInv T.S.cs T.σ T.vtys s env M) :
+    (inv : SInv T.M0 T.S.cs T.σ T.vtys s env M) :
     Post T lp brk cont (T.at env M pre) (pre ++ (funcstmt T.S.cs brk cont .continue_ c).items)
       (funcstmt T.S.cs brk cont .continue_ c).ctx out := by
   simp only [exec, Option.some.injEq] at hex
@@ -217,9 +226,9 @@ theorem sim_continue (n : Nat) (hex : exec T.S.cs (n + 1) s .continue_ = some ou
 /-- `case u:` / `default:` reached by falling through from the statement before: the label closes the
     block (no jump is pending there) and execution continues in the new one -/
 theorem sim_label (n : Nat) (st : Stmt) (hst : (∃ u, st = .case_ u) ∨ st = .default_)
-    (hex : exec T.S.cs (n + 1) s st = some out) (hp : Pos T c nd pre)
+    (hex : exec T.S.cs T.P (n + 1) s st = some out) (hp : Pos T c nd pre)
     (hits : T.S.its = pre ++ (funcstmt T.S.cs brk cont st c).items ++ post)
-    (inv : SInv T.S.cs T.σ T.vtys s env M) :
+    (inv : SInv T.M0 T.S.cs T.σ T.vtys s env M) :
     Post T lp brk cont (T.at env M pre) (pre ++ (funcstmt T.S.cs brk cont st c).items)
       (funcstmt T.S.cs brk cont st c).ctx out := by
   rcases hst with ⟨u, rfl⟩ | rfl
@@ -236,11 +245,11 @@ theorem sim_label (n : Nat) (st : Stmt) (hst : (∃ u, st = .case_ u) ∨ st = .
       rw [hits]; simp
     exact ⟨rfl, 1, env, M, Reach.one (step_fall_item T hits' env M), inv⟩
 
-theorem sim_exprstmt (n : Nat) (e : Expr) (hex : exec T.S.cs (n + 1) s (.expr e) = some out)
+theorem sim_exprstmt (n : Nat) (e : Expr) (hex : exec T.S.cs T.P (n + 1) s (.expr e) = some out)
     (hwt : Stmt.wt T.vtys T.ret lp.1 lp.2 nd (.expr e) = some nd') (hp : Pos T c nd pre)
     (hext : Ext T (funcstmt T.S.cs brk cont (.expr e) c).ctx)
     (hits : T.S.its = pre ++ (funcstmt T.S.cs brk cont (.expr e) c).items ++ post)
-    (inv : SInv T.S.cs T.σ T.vtys s env M) :
+    (inv : SInv T.M0 T.S.cs T.σ T.vtys s env M) :
     Post T lp brk cont (T.at env M pre) (pre ++ (funcstmt T.S.cs brk cont (.expr e) c).items)
       (funcstmt T.S.cs brk cont (.expr e) c).ctx out := by
   simp only [exec, Option.map_eq_some_iff] at hex
@@ -253,11 +262,11 @@ theorem sim_exprstmt (n : Nat) (e : Expr) (hex : exec T.S.cs (n + 1) s (.expr e)
     exact ⟨hp.jump, k, env', M, hreach, inv'⟩
   · cases hwt
 
-theorem sim_ret (n : Nat) (e : Expr) (hex : exec T.S.cs (n + 1) s (.ret e) = some out)
+theorem sim_ret (n : Nat) (e : Expr) (hex : exec T.S.cs T.P (n + 1) s (.ret e) = some out)
     (hwt : Stmt.wt T.vtys T.ret lp.1 lp.2 nd (.ret e) = some nd') (hp : Pos T c nd pre)
     (hext : Ext T (funcstmt T.S.cs brk cont (.ret e) c).ctx)
     (hits : T.S.its = pre ++ (funcstmt T.S.cs brk cont (.ret e) c).items ++ post)
-    (inv : SInv T.S.cs T.σ T.vtys s env M) :
+    (inv : SInv T.M0 T.S.cs T.σ T.vtys s env M) :
     Post T lp brk cont (T.at env M pre) (pre ++ (funcstmt T.S.cs brk cont (.ret e) c).items)
       (funcstmt T.S.cs brk cont (.ret e) c).ctx out := by
   simp only [exec, Option.map_eq_some_iff] at hex
@@ -269,13 +278,18 @@ theorem sim_ret (n : Nat) (e : Expr) (hex : exec T.S.cs (n + 1) s (.ret e) = som
     have hext' : Ext T (c.upd (exprOut T.S.cs c e).ctx) := hext
     obtain ⟨k, env', r, hreach, inv', _, hval, hrep⟩ := sim_exprOut T hp e hext' hw.2 hev hits inv
     rw [hw.1] at hrep
-    refine ⟨k, Or.inl ⟨env', M, (exprOut T.S.cs c e).val, r, ?_, hreach, hval, hrep⟩⟩
+    have hrange : ∀ (i : Nat) (t : CSem.Ty) (v' : Int), (T.vtys.take nd)[i]? = some t →
+        s[i]? = some (some v') → InRange (t.intTy T.S.cs) v' :=
+      fun i t v' ht hv' => inv.range i t v' (take_sub ht).1 hv'
+    have hrg := evalE_inRange T.S.cs (T.vtys.take nd) s hrange e v hw.2 hev
+    rw [hw.1] at hrg
+    refine ⟨hrg, k, Or.inl ⟨env', M, (exprOut T.S.cs c e).val, r, ?_, hreach, hval, hrep, inv'.a.popTo⟩⟩
     simp only [setJump_jump, upd_jump, hp.jump, Option.getD_none]
   · cases hwt
 
 theorem sim_decl_none (n : Nat) (i : Nat) (t : CSem.Ty)
-    (hex : exec T.S.cs (n + 1) s (.decl i t none) = some out) (hp : Pos T c nd pre)
-    (inv : SInv T.S.cs T.σ T.vtys s env M) :
+    (hex : exec T.S.cs T.P (n + 1) s (.decl i t none) = some out) (hp : Pos T c nd pre)
+    (inv : SInv T.M0 T.S.cs T.σ T.vtys s env M) :
     Post T lp brk cont (T.at env M pre) (pre ++ (funcstmt T.S.cs brk cont (.decl i t none) c).items)
       (funcstmt T.S.cs brk cont (.decl i t none) c).ctx out := by
   simp only [exec, Option.some.injEq] at hex
@@ -288,19 +302,19 @@ theorem sim_store (k : Nat) (t : CSem.Ty) (val : Val) (slot : Nat) {pos : List I
     (hits : T.S.its = pos ++ storeIns t val slot :: post) (hslot : T.σ.getD k 0 = slot)
     (hkt : T.vtys[k]? = some t) {v : Int} {r : RVal} (hval : readVal T.S.p env val = .ok r)
     (hv : InRange (t.intTy T.S.cs) v) (hr : Rep t v r)
-    (inv : SInv T.S.cs T.σ T.vtys s env M) :
+    (inv : SInv T.M0 T.S.cs T.σ T.vtys s env M) :
     ∃ M', T.Reach 1 (T.at env M pos) (T.at env M' (pos ++ [storeIns t val slot])) ∧
-      SInv T.S.cs T.σ T.vtys (s.set k (some v)) env M' := by
+      SInv T.M0 T.S.cs T.σ T.vtys (s.set k (some v)) env M' := by
   obtain ⟨a, M', h1, h2, h3⟩ := inv.store hkt hv (storeVal_of_rep hr)
   rw [hslot] at h1
   exact ⟨M', run_nores T hits (readVals_two hval (readVal_tmp h1)) h2, h3⟩
 
 theorem sim_assign (n : Nat) (i : Nat) (t : CSem.Ty) (e : Expr)
-    (hex : exec T.S.cs (n + 1) s (.assign i t e) = some out)
+    (hex : exec T.S.cs T.P (n + 1) s (.assign i t e) = some out)
     (hwt : Stmt.wt T.vtys T.ret lp.1 lp.2 nd (.assign i t e) = some nd') (hp : Pos T c nd pre)
     (hext : Ext T (funcstmt T.S.cs brk cont (.assign i t e) c).ctx)
     (hits : T.S.its = pre ++ (funcstmt T.S.cs brk cont (.assign i t e) c).items ++ post)
-    (inv : SInv T.S.cs T.σ T.vtys s env M) :
+    (inv : SInv T.M0 T.S.cs T.σ T.vtys s env M) :
     Post T lp brk cont (T.at env M pre) (pre ++ (funcstmt T.S.cs brk cont (.assign i t e) c).items)
       (funcstmt T.S.cs brk cont (.assign i t e) c).ctx out := by
   simp only [exec, Option.map_eq_some_iff] at hex
@@ -328,11 +342,11 @@ theorem sim_assign (n : Nat) (i : Nat) (t : CSem.Ty) (e : Expr)
   · cases hwt
 
 theorem sim_decl_init (n : Nat) (i : Nat) (t : CSem.Ty) (e : Expr)
-    (hex : exec T.S.cs (n + 1) s (.decl i t (some e)) = some out)
+    (hex : exec T.S.cs T.P (n + 1) s (.decl i t (some e)) = some out)
     (hwt : Stmt.wt T.vtys T.ret lp.1 lp.2 nd (.decl i t (some e)) = some nd') (hp : Pos T c nd pre)
     (hext : Ext T (funcstmt T.S.cs brk cont (.decl i t (some e)) c).ctx)
     (hits : T.S.its = pre ++ (funcstmt T.S.cs brk cont (.decl i t (some e)) c).items ++ post)
-    (inv : SInv T.S.cs T.σ T.vtys s env M) :
+    (inv : SInv T.M0 T.S.cs T.σ T.vtys s env M) :
     Post T lp brk cont (T.at env M pre) (pre ++ (funcstmt T.S.cs brk cont (.decl i t (some e)) c).items)
       (funcstmt T.S.cs brk cont (.decl i t (some e)) c).ctx out := by
   simp only [exec, Option.map_eq_some_iff] at hex
